@@ -49,7 +49,7 @@ func zvGenPerm(rng *core.Rand) zvPerm {
 	case 1:
 		p.PathExact = core.Pick(rng, []string{"/admin", "/v1/x.y", "/"})
 	case 2:
-		p.PathPrefix = core.Pick(rng, []string{"/v1", "/", "/admin"})
+		p.PathPrefix = core.Pick(rng, []string{"/v1", "/", "/admin", "/v1/", "/admin/"})
 	case 3:
 		p.PathRegex = core.Pick(rng, []string{"/v[0-9]+/.*", "/admin.*", "/a.b"})
 	}
